@@ -42,7 +42,7 @@ def run_one(m):
         return (m, "ok", "")
     else:
         if p.returncode != 0 or "VIOLATION" in out:
-            return (m, "FALSE-ALARM", "\n".join(l for l in out.splitlines() if "violated" in l)[:800])
+            return (m, "FALSE-ALARM", "\n".join(l for l in out.splitlines() if "violated" in l or l.startswith("VIOLATION"))[:1500])
         return (m, "ok", "")
 
 def main():
